@@ -153,6 +153,7 @@ func (repsim) Generate(rng *Rand, prop, tier string) *Script {
 	switch prop {
 	case "C06":
 		w["snap"], w["wbig"], w["punch"], w["reopen"], w["rm"] = 16, 14, 8, 5, 5
+		w["clean"], w["mark"], w["ckpt"] = 6, 5, 5 // deletion of OTHER snapshots by the background cleaner
 	case "C10":
 		w["cw"], w["mode"], w["setrev"], w["reopen"] = 6, 5, 3, 6
 	case "C11":
@@ -169,6 +170,7 @@ func (repsim) Generate(rng *Rand, prop, tier string) *Script {
 		if rng.Bool(30) {
 			switch {
 			case prop == "C11" && (k == "rm" || k == "clean"):
+			case prop == "C06" && (k == "clean" || k == "mark"):
 			case prop == "C16" && k == "resize":
 			case prop == "C17" && (k == "close" || k == "rest" || k == "mode"):
 			case prop == "C10" && (k == "cw" || k == "mode"):
@@ -1213,6 +1215,15 @@ func (rr *repRun) reopen(preload bool, modeSel int64) {
 	rr.compareLive("C01", "read-after-reopen-mismatch")
 }
 
+// c11or01: what the live volume reads after a snapshot deletion is C11's clause and, being a
+// read that does not return the last written data, C01's as well: in C01 runs it is reported there.
+func (rr *repRun) c11or01() string {
+	if rr.s.Prop == "C01" {
+		return "C01"
+	}
+	return "C11"
+}
+
 func (rr *repRun) compareLive(prop, clause string) {
 	if !rr.m.open || rr.stopped() {
 		return
@@ -1324,7 +1335,7 @@ func (rr *repRun) removeSnapshot(target, kind string) {
 				return
 			}
 			// C11: between fold and remove nothing visible may change
-			rr.compareLive("C11", "live-changed-by-coalesce")
+			rr.compareLive(rr.c11or01(), "live-changed-by-coalesce")
 			rr.checkSnapshots("C11", "snapshot-changed-by-coalesce", target, parent.name)
 			if rr.stopped() {
 				return
@@ -1346,7 +1357,7 @@ func (rr *repRun) removeSnapshot(target, kind string) {
 				if sn.tainted {
 					parent.tainted = true
 				}
-				rr.compareLive("C11", "live-changed-by-refused-deletion")
+				rr.compareLive(rr.c11or01(), "live-changed-by-refused-deletion")
 				rr.checkSnapshots("C11", "snapshot-changed-by-refused-deletion", "", "")
 				return
 			}
@@ -1356,6 +1367,15 @@ func (rr *repRun) removeSnapshot(target, kind string) {
 	rr.res.stat("snapshot_removed", 1)
 	rr.mutations++
 	// model: parent now holds target's image; children of target re-parented
+	if kind == "clean" && parent.user && !parent.removed && !parent.tainted && !sn.tainted {
+		// the background cleaner merged into a retained user-created snapshot (only reachable in
+		// C06 runs, see cleaner()): "deletion of other snapshots leaves every retained user-created
+		// snapshot byte-identical" - judge its content against the image recorded when it was taken
+		rr.checkSnapshots("C06", "user-snapshot-changed", "", "")
+		if rr.stopped() {
+			return
+		}
+	}
 	if parent.user && !parent.removed {
 		parent.tainted = true
 		rr.res.stat("merge_into_user_snapshot", 1)
@@ -1378,7 +1398,7 @@ func (rr *repRun) removeSnapshot(target, kind string) {
 	if m.checkpoint == target {
 		// the checkpoint named a snapshot that no longer exists; keep the string (replica does)
 	}
-	rr.compareLive("C11", "live-changed-by-snapshot-deletion")
+	rr.compareLive(rr.c11or01(), "live-changed-by-snapshot-deletion")
 	rr.checkSnapshots("C11", "snapshot-changed-by-snapshot-deletion", "", "")
 }
 
@@ -1423,7 +1443,12 @@ func (rr *repRun) cleaner() {
 		default:
 			par := m.snaps[sn.parent]
 			if par != nil && par.user && !par.removed {
-				rr.viol("C11", "cleaner-selected-merge-into-user-snapshot", "candidate %s would be merged into user-created snapshot %s", c, par.name)
+				if rr.s.Prop == "C06" {
+					// C06 runs let the cleaner go ahead and judge what it does to that snapshot's content
+					rr.res.stat("cleaner_merge_into_user_snapshot_observed", 1)
+				} else {
+					rr.viol("C11", "cleaner-selected-merge-into-user-snapshot", "candidate %s would be merged into user-created snapshot %s", c, par.name)
+				}
 			}
 		}
 		if rr.stopped() {
@@ -1676,6 +1701,16 @@ var restActions = []string{"start", "reload", "updatecloneinfo", "snapshot", "op
 	"replacedisk", "setrebuilding", "setlogging", "create", "revert", "prepareremovedisk", "setrevisioncounter",
 	"setreplicamode", "setcheckpoint", "bogus", "", "updatediskmode", "setreplicacounter"}
 
+// mustRefuse: state -> actions that cannot be valid there whatever the advertised table says.
+// closed: nothing that needs the open engine; rebuilding (chain being replaced by a sync):
+// nothing that creates, removes or re-links chain members, and no second attach; open: no
+// second attach or create.
+var mustRefuse = map[string]map[string]bool{
+	"closed":     {"snapshot": true, "reload": true, "close": true, "setrebuilding": true, "setreplicamode": true, "setrevisioncounter": true, "setcheckpoint": true},
+	"rebuilding": {"snapshot": true, "revert": true, "removedisk": true, "prepareremovedisk": true, "replacedisk": true, "open": true, "create": true},
+	"open":       {"open": true, "create": true},
+}
+
 const restBody = `{"name":"zz","created":"2020-01-03T00:00:00Z","size":"16777216","rebuilding":true,"mode":"RW","counter":"77","snapshotName":"zz","Action":"start","target":"volume-snap-a.img","source":"volume-snap-b.img","snapname":"q","revisioncounter":"3","usercreated":true}`
 
 // restProbe (C17): an action that GET /v1/replicas/1 does not advertise for the
@@ -1700,9 +1735,23 @@ func (rr *repRun) restProbe(a int64) {
 		return
 	}
 	action := restActions[int(a)%len(restActions)]
-	if _, ok := adv.Actions[action]; ok {
+	// Independent of what the replica advertises: actions that cannot be valid in the state the
+	// MODEL says the replica is in (a small core that follows from the design, not a copy of the
+	// shipped table) must be refused.
+	mstate := "closed"
+	if rr.m.open {
+		mstate = "open"
+		if rr.m.rebuilding {
+			mstate = "rebuilding"
+		}
+	}
+	must := mustRefuse[mstate][action]
+	if _, ok := adv.Actions[action]; ok && !must {
 		rr.note("rest", "advertised")
 		return
+	}
+	if must {
+		rr.res.stat("rest_out_of_state_probes", 1)
 	}
 	rr.drainPuncher()
 	before := rr.capture()
@@ -1716,6 +1765,10 @@ func (rr *repRun) restProbe(a int64) {
 	rr.note("rest", fmt.Sprintf("%s-%s-%d", adv.State, action, code))
 	rr.res.stat("rest_unadvertised_probes", 1)
 	if code < 400 {
+		if must {
+			rr.viol("C17", "out-of-state-action-accepted", "replica is %s (reports %q): POST ?action=%s answered %d", mstate, adv.State, action, code)
+			return
+		}
 		rr.viol("C17", "unadvertised-action-accepted", "state %s: POST ?action=%s (not advertised) answered %d", adv.State, action, code)
 		return
 	}
